@@ -161,6 +161,12 @@ def to_case_c11(ob):
                 if not c11.shape_ok(cont, tuple(shape)):
                     continue
                 base = dict(kind="roundtrip", container=cname, shape=shape, sdtype=sd, range="small", seed=0)
+                if cont.needs_dtype:
+                    # raw binary: no suffix rule and no BytesIO path (np.fromfile needs a real file) - read by path with force_as='file' and
+                    # the stored dtype, as the stand-in itself does
+                    out.append(dict(base, via="path", force_as="file", dtype=sd))
+                    out.append(dict(base, via="file", force_as="file", dtype=sd))
+                    continue
                 out.append(dict(base, via="path"))
                 if cont.stream_force:
                     out.append(dict(base, via="bytesio", force_as=cont.stream_force[0]))
